@@ -6,6 +6,12 @@
 //!   cli gen-proto                     prints `proto` cases: one per capability protocol type (serde-reflection trace of the real type)
 //!   cli gen-syn <seed> <n>            prints `syn` cases: <n> synthetic crux-shaped crate sets (harness::clisyn) x {id, renum, shuf, mix}
 //!   cli run                           reads case lines, prints one observation line per case
+//!   cli orders                        prints, per fixture, how many distinct crate loading orders the `order:<perm>` variants take
+//!
+//! variants: `id` = as bundled; `renum:<seed>` = every item id, wherever it occurs, through a random injective map per
+//! crate; `shuf:<seed>` = JSON re-serialised with object keys in random order, re-parsed, description listed in random
+//! order; `mix:<seed>` = both, plus a random crate order; `order:<perm>` = at every step of the loading loop, of the
+//! pending crates the one that comes first in the permutation (of the name-sorted dependent crates) is loaded.
 //!
 //! The REAL code under test is /repo/crux_cli/src/codegen (working tree), compiled into this binary by path: the
 //! `codegen` module below `include!`s its mod.rs, so the private `run`, `format`, `Filter` are reachable from the glue
